@@ -861,6 +861,38 @@ func (g *gen) sameLocalNames(thorough bool) {
 	g.rep.Count("same-local-name:sub-build")
 }
 
+// target lists with source files before, between and after rule targets (and
+// only source files): a source target is logged and skipped, the targets after
+// it are still built
+func (g *gen) sourceTargets() {
+	b := func(n string, deps ...string) decl { return decl{kind: 'b', name: n, a: deps} }
+	f := func(n string, files []string, incs ...string) decl { return decl{kind: 'f', name: n, a: files, b: incs} }
+	decls := []decl{b("a", "s"), b("b", "a", "t"), f("x", []string{"t"})}
+	items := []string{"p/a", "p/b", "p/s", "p/t", "p/x"}
+	var rec func(cur []string, used int)
+	rec = func(cur []string, used int) {
+		if len(cur) > 0 {
+			for _, ar := range []bool{false, true} {
+				g.add(&wsOp{dirs: []string{"p"}, files: []bfile{{dir: "p", decls: decls}}, srcs: []string{"p/s", "p/t"},
+					targets: append([]string{}, cur...), ar: ar}, true)
+				g.rep.Count("source-file-targets")
+			}
+		}
+		if len(cur) == 4 {
+			return
+		}
+		for i, it := range items {
+			if used&(1<<i) == 0 {
+				rec(append(cur, it), used|1<<i)
+			}
+		}
+	}
+	rec(nil, 0)
+	// a source target that is also a dependency of a later target, and a repeated target
+	g.add(&wsOp{dirs: []string{"p"}, files: []bfile{{dir: "p", decls: decls}}, srcs: []string{"p/s", "p/t"},
+		targets: []string{"p/s", "p/a", "p/s", "p/b", "p/b"}}, true)
+}
+
 // random graphs over several packages
 func (g *gen) randomGraphs(n int, maxRules int) {
 	for i := 0; i < n; i++ {
@@ -976,8 +1008,11 @@ func (g *gen) randomGraphs(n int, maxRules int) {
 		if len(targets) == 0 {
 			targets = []string{rules[0].pkg + "/" + rules[0].name}
 		}
-		if g.r.Intn(10) == 0 {
-			targets = append(targets, "p/s") // a source file as a target
+		if g.r.Intn(4) == 0 { // source files among the targets, at any position
+			for k := 1 + g.r.Intn(2); k > 0; k-- {
+				at := g.r.Intn(len(targets) + 1)
+				targets = append(targets[:at], append([]string{hx.Pick(g.r, srcs)}, targets[at:]...)...)
+			}
 		}
 		g.add(&wsOp{dirs: dirs, files: files, srcs: srcs, targets: targets, ar: i%2 == 1}, true)
 		g.rep.Count(fmt.Sprintf("random-graph:mode-%d", mode))
@@ -1097,7 +1132,7 @@ func main() {
 	rep.Rule = "one op = one scratch workspace (bundle / file_set / sub_builds declarations over 1-3 packages, source files) + targets, " +
 		"built by the real Builder in a child process (every second op with AlwaysRebuild): all graphs of 2 rules over {r0, r1, source, missing} and of 3 (thorough: 4) rules over the rules x target subsets, " +
 		"every declaration permutation x target subset of fixed shapes (diamond, chain, self-loop, 2/4-cycle, cycle behind the memo, dangling, duplicate, output/rule collision, file sets, unnamed) and random 2-3 rule graphs, " +
-		"sub-build directory strings (., empty, x/.., q, /q, ../q ...) singly and in pairs, random multi-package graphs (duplicates across files, long cycles, dangling, collisions, unnamed), long chains; " +
+		"target lists with source files before, between and after rule targets, sub-build directory strings (., empty, x/.., q, /q, ../q ...) singly and in pairs, random multi-package graphs (duplicates across files, long cycles, dangling, collisions, unnamed), long chains; " +
 		"distinct = distinct op line; every op is non-trivial (it loads at least one build file)"
 	work := f.Work
 	if work == "" {
@@ -1138,6 +1173,7 @@ func main() {
 		}
 		g.subBuilds()
 		g.sameLocalNames(f.Thorough())
+		g.sourceTargets()
 		g.shapes()
 		g.longChains()
 		if f.Thorough() {
